@@ -111,9 +111,15 @@ def spec_item(rec, item):
       rec.evals += 1
       try:
         dd = dna.to_dict(key_type=kt, value_type=vt, multi_choice_key=mk, include_inactive_decisions=inc)
+        before = repr(dd)
         back = pg.DNA.from_dict(dict(dd), spec)
         if back != dna:
           rec.viol(f'dict-lossy/{kt}/{vt}/{mk}/{base}', f'{lit!r} -> {_short(dd)} -> {back!r}', trd); ok = False
+        # the view handed to from_dict (through a shallow copy) must stay what to_dict returned, and work again
+        if repr(dd) != before or pg.DNA.from_dict(dict(dd), spec) != dna \
+            or repr(dna.to_dict(key_type=kt, value_type=vt, multi_choice_key=mk, include_inactive_decisions=inc)) != before:
+          rec.viol(f'dict-view-consumed/{kt}/{vt}/{mk}', f'{lit!r}: the view {before} was changed by DNA.from_dict to {_short(dd)} '
+                   f'(or no longer reconstructs the DNA)', trd); ok = False
       except Exception as e:  # pylint: disable=broad-except
         rec.viol(f'dict-raises:{type(e).__name__}/{kt}/{vt}/{mk}/{base}', f'{lit!r} (inactive={inc}): {e}', trd); ok = False
     # JSON
@@ -166,6 +172,7 @@ def spec_item(rec, item):
       ('json+use_spec', lambda x: pg.from_json(x.to_json()).use_spec(spec)),
       ('parse+use_spec', lambda x: pg.DNA.parse(x.to_numbers(flatten=False)).use_spec(spec)),
       ('ctor(spec=)', lambda x: pg.DNA(x.to_numbers(flatten=False), spec=spec)),
+      ('from_dict(reordered bound sub-DNAs)', lambda x: _from_reordered(x, spec)),
   ]
   starts = [('iter_dna', x) for x in itertools.islice(spec.iter_dna(), 4 if tier != 'thorough' else 40)]
   first = spec.first_dna()
@@ -196,6 +203,22 @@ def spec_item(rec, item):
             continue
           rec.trans += 1
           aligned(z, spec, rec, f'{p2}', base, dict(tr, start=sname, chain=[p1, p2]))
+
+
+def _from_reordered(x, spec):
+  """A new DNA built from the already bound sub-DNAs of x, with the choices of every multi-choice reversed."""
+  view = x.to_dict(key_type='id', value_type='dna', multi_choice_key='parent')
+  changed = False
+  for k, v in list(view.items()):
+    if isinstance(v, list) and len(v) > 1:
+      view[k] = list(reversed(v))
+      changed = True
+  if not changed:
+    return None
+  try:
+    return pg.DNA.from_dict(view, spec)
+  except ValueError:
+    return None          # the reversed order violates a sorted constraint
 
 
 def _short(x):
